@@ -27,12 +27,7 @@ def isNoneItem (impl : Json) : Bool := (impl.getObjVal? "none_item").isOk
 
 inductive Cmp where
   | agree
-  | na (why : String)       -- value modelled elsewhere (codec strings, f64→f32)
   | differ (why : String)
-
-def modelIsOpaqueOk : Option (R DVal) → Bool
-  | some (.ok d) => dvalOpaque d
-  | _ => false
 
 def compareRead (m : Option (R DVal)) (impl : Json) : Cmp :=
   match m with
@@ -40,9 +35,6 @@ def compareRead (m : Option (R DVal)) (impl : Json) : Cmp :=
   | some r =>
     if isNoneItem impl then .differ "impl: no such item, model has one"
     else if outcomeAgrees r impl then .agree
-    else if modelIsOpaqueOk m then
-      -- the codec may legitimately fail (or, on the pinned tree, panic: defects #13, #16, #17 of C14/C15/C16)
-      .na "codec"
     else .differ s!"model {(outcomeJson r).compress.take 300}, impl {impl.compress.take 300}"
 
 def fixVariants : List (String × Fixes) :=
